@@ -1567,6 +1567,10 @@ impl SystemState {
                 for (pid, process) in &mut self.processes {
                     if process.ppid == parent_pid {
                         let changed = process.state_has_changed();
+                        if !changed && !process.state().is_alive() {
+                            // This child has already been waited for.
+                            continue;
+                        }
                         result = Some((*pid, process));
                         if changed {
                             break;
